@@ -167,7 +167,13 @@ func (a *FuncAction) Exec(ctx context.Context, bs Bindings, props StepProps) (*E
 		// An execution that failed (nil execution) or that returned
 		// no bindings (say a guard that rejects) has nothing to
 		// restore into.
+		// (Write only what is not already there: an action that
+		// returns the bindings it was given - as an action without
+		// a function does - hands back the caller's own map.)
 		for p, v := range permanent {
+			if cur, have := exe.Bs[p]; have && reflect.DeepEqual(cur, v) {
+				continue
+			}
 			exe.Bs[p] = v
 		}
 	}
